@@ -2,8 +2,15 @@
 import itertools
 from engine import core
 
-INFO = {"outside": "wip", "assumptions": []}
-MANIFEST = {"text": "wip", "note": "wip"}
+INFO = {
+    "outside": 'histories longer than the listed skeletons; full 20/91-byte key entropy; unscaled 64-bucket table beyond 3 inserts',
+    "assumptions": ['allocator never fails', 'rwlock model'],
+}
+MANIFEST = {
+    "text": 'Bounded model checking of the real ht-spkitable.c + tommyhashlin + tommylist on operation-kind skeletons (add / remove / remove-by-source / reload) from the empty table with every key symbolic -- in particular a free 32-bit AS number, so bucket collisions are found by the solver -- against an array model, with final get_all / search_by_ski queries for an arbitrary (AS, SKI) and the callback recorder. The hash table is scaled to 2 initial buckets (hook) so grow steps are crossed.',
+    "note": "Bounded: histories of <=2 operations in the quick tier (3-5 in thorough; each costs minutes and >10 GB: the 111-byte key arrays and tommy's pointer arithmetic are expensive to encode). SKI/SPKI vary in byte 0 only. Solver: CaDiCaL.",
+    "technique": 'CBMC on real ht-spkitable.c/tommyhashlin.c with symbolic keys and skeleton-enumerated histories',
+}
 
 SPKI_SOURCES = ["third-party/tommyds/tommyhashlin.c", "third-party/tommyds/tommylist.c"]
 NM = {1: "A", 2: "R", 3: "S", 4: "L"}
